@@ -735,6 +735,21 @@ def c19_cli(ctx, broken):
                     "no_input": True}
         samples.append({"file_bytes": int(ri["len"]), "faults": nf, "rejected": int(ri["rejected"]), "accepted_same": int(ri["same"]),
                         "model_cross_checked": len(subset), "w": w, "k": k})
+    # chunk headers of a many-frame file: a type byte turned "skippable" drops 64 KiB of the stream
+    # with every checksum intact; whole frames lie inside the count array and inside the bases array
+    big = [(64, 31, 2, 140000)] + ([(128, 41, 3, 90000), (64, 15, 6, 100000)] if thorough else [])
+    for (w, k, nsamp, nrows) in big:
+        case = f"skchunks w={w} k={k} nsamp={nsamp} rows={nrows} seed={rnd.randrange(1 << 30)}"
+        ri = kvs(core.run_impl(ctx, [case], "c19k")[0])
+        nf = int(ri["rejected"]) + int(ri["same"]) + int(ri["different"])
+        evals += nf
+        nontriv += nf
+        if int(ri["different"]) != 0:
+            return {"summary": {"evaluations": evals, "nontrivial": nontriv},
+                    "violation": {"kind": "c19-faults", "what": "a file with a damaged or dropped compression chunk was accepted with different content",
+                                  "faults": ri["diffs"], "case": case}}
+        samples.append({"file_bytes": int(ri["len"]), "chunks": int(ri["chunks"]), "faults": nf, "rejected": int(ri["rejected"]),
+                        "accepted_same": int(ri["same"]), "kind": "chunk headers and dropped chunks", "w": w, "k": k})
     # CLI: a damaged copy must be rejected by every subcommand or give the same output
     d = fresh_dir(ctx, "c19cli")
     k = 17
@@ -1294,6 +1309,33 @@ def read_fasta(path):
 COMP = str.maketrans("ACGT", "TGCA")
 
 
+def lo_names(n):
+    """sample names that are NOT in sorted order (and not in order of length): the order of the
+    samples is that of the input files, never that of their names"""
+    pool = ["iso_T", "iso_k", "iso_B", "s10", "s2", "iso_Z", "a.9", "Iso_c", "iso_A", "s1", "zz", "iso_m"]
+    return pool[:n] if n <= len(pool) else pool + [f"x{99 - i}" for i in range(n - len(pool))]
+
+
+def lo_names_ok(prefix, names, with_ref):
+    """the sample names of every output of ska lo, in input order; returns an error string or None"""
+    got = [r[0] for r in (read_fasta(prefix + "_snps.fas") or [])]
+    if got != names:
+        return f"SNP alignment lists the samples as {got}, input order is {names}"
+    files = ["_indels.vcf"] + (["_snps.vcf"] if with_ref else [])
+    for sfx in files:
+        if not os.path.exists(prefix + sfx):
+            continue
+        hdr = [l for l in open(prefix + sfx) if l.startswith("#CHROM")]
+        cols = hdr[0].rstrip("\n").split("\t")[9:] if hdr else None
+        if cols != names:
+            return f"{sfx} header lists the samples as {cols}, input order is {names}"
+    if with_ref:
+        pg = [r[0] for r in (read_fasta(prefix + "_pseudo_genomes.fas") or [])]
+        if pg != names:
+            return f"pseudo-genomes list the samples as {pg}, input order is {names}"
+    return None
+
+
 def lo_wellformed(prefix, nsamp, max_missing, ref=None, samples=None):
     """well-formedness of the outputs of one `ska lo` run; returns an error string or None"""
     snps = read_fasta(prefix + "_snps.fas")
@@ -1549,8 +1591,9 @@ def c17_cli(ctx, broken):
         done += 1
         d = fresh_dir(ctx, "c17cli")
         files = []
+        snames = lo_names(len(seqs))
         for si, s in enumerate(seqs):
-            f = os.path.join(d, f"s{si}.fa")
+            f = os.path.join(d, f"{snames[si]}.fa")
             write_fasta(f, [revcomp(s) if rnd.random() < 0.3 else s])
             files.append(f)
         write_fasta(os.path.join(d, "ref.fa"), [base], names=["g"])
@@ -1565,7 +1608,7 @@ def c17_cli(ctx, broken):
         evals += 1
         if code != 0:
             return viol("ska lo failed on a planted family", stderr=err[-300:], k=k, sites=sites, genome=base, samples=seqs)
-        wf = lo_wellformed(os.path.join(d, "o"), nsamp, 0.1, base if use_ref else None)
+        wf = lo_wellformed(os.path.join(d, "o"), nsamp, 0.1, base if use_ref else None) or lo_names_ok(os.path.join(d, "o"), snames, use_ref)
         if wf:
             return viol("ill-formed output: " + wf, k=k, sites=sites, genome=base, samples=seqs, use_ref=use_ref)
         snps = read_fasta(os.path.join(d, "o_snps.fas"))
@@ -1693,8 +1736,9 @@ def c18_cli(ctx, broken):
         done += 1
         d = fresh_dir(ctx, "c18cli")
         files = []
+        snames = lo_names(len(seqs))
         for si, s in enumerate(seqs):
-            f = os.path.join(d, f"s{si}.fa")
+            f = os.path.join(d, f"{snames[si]}.fa")
             write_fasta(f, [s])
             files.append(f)
         ska(["build", "-o", os.path.join(d, "x"), "-k", str(k)] + files, d)
@@ -1705,6 +1749,9 @@ def c18_cli(ctx, broken):
             if "no entry node" in err:
                 continue
             return viol("ska lo failed on a planted-indel family", stderr=err[-300:], k=k, samples=seqs)
+        nm = lo_names_ok(os.path.join(d, "o"), snames, False)
+        if nm:
+            return viol("sample columns are not in input order: " + nm, k=k, samples=seqs)
         recs = [l.rstrip("\n").split("\t") for l in open(os.path.join(d, "o_indels.vcf")) if not l.startswith("#")]
         planted_total += len(indels)
         matched = set()
